@@ -2043,6 +2043,7 @@ SPEC_MUTANTS = [
     ("MC_Conserve.tla", "MC_Conserve_mutant_combiner.cfg", "Inv_"),
     ("MC_Conserve.tla", "MC_Conserve_mutant_gcskip.cfg", "Inv_"),
     ("MC_Conserve.tla", "MC_Conserve_mutant_blocksfirst.cfg", "Inv_"),
+    ("MC_Conserve.tla", "MC_Conserve_mutant_nocount.cfg", "Inv_Format"),
     ("MC_Conserve.tla", "MC_Conserve_mutant_conc_norecheck.cfg", "Inv_"),
     ("MC_Conserve.tla", "MC_Conserve_mutant_conc_headless.cfg", "Inv_"),
     ("MC_Conserve.tla", "MC_Conserve_mutant_silenthunks.cfg", "Inv_ValidateAdequate"),
